@@ -154,7 +154,7 @@ out:
 					"public_key": hex.EncodeToString(block.MsgBlock().Header.PublicKey().SerializeCompressed()),
 					"bit_length": block.MsgBlock().Header.Proof.BitLength(),
 				})
-			m.submitBlock(block, minerReward)
+			m.submitBlock(block, minerReward, quit)
 		} else if err != errQuitSolveBlock {
 			logging.CPrint(logging.ERROR, "fail to solve block", logging.LogFormat{"err": err})
 		}
@@ -165,13 +165,28 @@ out:
 
 // submitBlock submits the passed block to network after ensuring it passes all
 // of the consensus validation rules.
-func (m *PoCMiner) submitBlock(block *massutil.Block, minerReward massutil.Amount) bool {
+func (m *PoCMiner) submitBlock(block *massutil.Block, minerReward massutil.Amount, quit chan struct{}) bool {
 	// wait for proper time
 	for {
+		// give up the block when the miner is stopped meanwhile
+		select {
+		case <-quit:
+			logging.CPrint(logging.INFO, "give up mined block due to miner stopped",
+				logging.LogFormat{"hash": block.Hash(), "height": block.Height()})
+			return false
+		default:
+		}
 		if time.Now().After(block.MsgBlock().Header.Timestamp) {
 			break
 		}
 		time.Sleep(time.Second * pocSlot / 4)
+	}
+
+	// give up the block when the best chain has been switched meanwhile
+	if !m.chain.BestBlockHash().IsEqual(&block.MsgBlock().Header.Previous) {
+		logging.CPrint(logging.INFO, "give up mined block due to better received block",
+			logging.LogFormat{"hash": block.Hash(), "height": block.Height(), "previous": block.MsgBlock().Header.Previous})
+		return false
 	}
 
 	// Process this block using the same rules as blocks coming from other
